@@ -89,8 +89,10 @@ pub fn unify(state: &mut TypeCheckerState, watchdog: &DynWatchdog) -> Result<()>
                 continue;
             }
 
-            // Get all of the inferences
-            let mut inferred_expressions: VecDeque<_> = inferences.into_iter().collect();
+            // Get all of the inferences. Combining them is not associative in all cases, so
+            // they are folded in a canonical order rather than in the hash set's iteration
+            // order, which differs from run to run.
+            let mut inferred_expressions: VecDeque<_> = inferences.into_iter().sorted().collect();
             let mut current = inferred_expressions
                 .pop_front()
                 .expect("We know there is at least one item in the expressions queue");
